@@ -98,10 +98,12 @@ structure Shape where
   maxWeight : Int
   deriving DecidableEq, Repr, Inhabited
 
-/-- `CacheD::new`: `assert!(config.counters > 0)`; `DashMap::with_capacity_and_shard_amount` asserts
-    `shard_amount > 1` and a power of two (store and key_weights). -/
+/-- `CacheD::new`: `assert!(config.counters > 0)`; `DashMap::with_capacity_and_shard_amount` (dashmap 5.4.0, lib.rs:271)
+    asserts `shard_amount > 0` and a power of two (store and key_weights). A shard count of 1 passes these two assertions
+    (the map then fails at its first access: a shift by the full word width); it cannot be configured: the field is
+    `pub(crate)` and the setter refuses it (`Builder.set`, `shards > 1`). -/
 def cachedNew (b : Builder) (seeds : List Nat) : Option Shape :=
-  if b.counters > 0 ∧ b.shards > 1 ∧ isPow2 b.shards = true then
+  if b.counters > 0 ∧ b.shards > 0 ∧ isPow2 b.shards = true then
     let lfu := TinyLFU.new b.counters seeds
     some { cmdCap := b.cmd, ttlShards := b.shards, poolBuffers := b.pool, bufCap := b.buf,
            rows := lfu.fc.rows.length, rowBytes := lfu.fc.total / 2, resetAt := lfu.resetAt, maxWeight := b.cacheWeight }
